@@ -141,6 +141,10 @@ def correspondence(ctx, model_ok=True):
         for k, fn in enumerate(fns):
             requests.append(fn_line(fn, fns))
             owners.append((pi, k))
+            if "lines" in fn and len(fn["lines"]) * 2 != len(fn["code"] or ""):
+                failures.append({"what": "a compiled function's line table is not parallel to its code (%d code bytes, %d line entries): the lines of error "
+                                         "reports shift" % (len(fn["code"] or "") // 2, len(fn["lines"])), "program": src if len(src) < 4000 else src[:4000],
+                                 "name": name, "function": fn["name"], "signature": "lines not parallel", "failing_input": True})
     n_fn = len(requests)
     accepted = 0
     compared = 0
